@@ -105,6 +105,9 @@ class HistParametricModel(ParametricModelBaseMixin, HistContainer):
     def _recalculate(self):
         # don't use parent class setter for 'data' -> set directly
         self._data[1:-1] = self._bin_evaluation_method()
+        # reset member error references to the new model values
+        for _err_dict in self._error_dicts.values():
+            _err_dict["err"].reference = self._get_error_reference
         self._pm_calculation_stale = False
 
     def _bin_evaluation_rectangle(self):
